@@ -100,6 +100,7 @@ type Sess struct {
 	RecAll   [][]RecEvent
 	gfs      map[int]*gfState
 	kept     *keptDump
+	stale    []ecs.CachedFilter // handles of filters that were unregistered
 	Res      *ResModel
 	ResIDs   []ecs.ResID
 	ResKeys  []string
@@ -306,13 +307,38 @@ func (s *Sess) consume(q *ecs.Query, op *Op, out *Outcome, visit func(q *ecs.Que
 			q.Close()
 		}
 	case 4:
+		// Step through the returned query and compare each landing position with EntityAt
 		step := 1 + op.Trav/5%3
+		out.QCount = q.Count()
+		at := make([]ecs.Entity, out.QCount)
+		for i := range at {
+			at[i] = q.EntityAt(i)
+		}
+		pos := -1
 		for {
 			s.qcalls++
-			if !q.Step(step) {
+			pos += step
+			ok := q.Step(step)
+			if pos >= out.QCount {
+				if ok {
+					s.fail("query.step", "returned query: Step to position %d returned true, Count()=%d", pos, out.QCount)
+					q.Close()
+				}
+				break
+			}
+			if !ok {
+				s.fail("query.step", "returned query: Step to position %d of %d returned false", pos, out.QCount)
 				break
 			}
 			get()
+			if e := q.Entity(); e != at[pos] {
+				s.fail("query.step", "returned query: after stepping to position %d the query is at %v, EntityAt(%d)=%v", pos, e, pos, at[pos])
+				q.Close()
+				break
+			}
+		}
+		if step == 1 && !s.Failed() {
+			out.QFull = true
 		}
 	}
 }
@@ -568,7 +594,10 @@ func (s *Sess) call(op *Op, out *Outcome) {
 		if !sameFilter(f, r.orig) {
 			s.fail("cache.unregister", "Unregister returned %v, not the original filter %v", f, r.orig)
 		}
+		s.stale = append(s.stale, r.cached)
 		delete(s.regs, *op.Slot)
+	case "CacheUnregisterStale":
+		w.Cache().Unregister(&s.stale[op.ID%len(s.stale)])
 	case "RegisterType":
 		n := len(s.IDs)
 		s.registerType(op.Key)
